@@ -59,7 +59,7 @@ func prepassCorrespondence(res *Result, drv *DriverPool, texts []string) {
 var wrapPieces = []string{"<mj-text", "<MJ-Text", "<mj-text>", "<mj-text a=\"x>y\" b='/>'>", "<mj-text />", "<mj-text/>", "<mj-textarea>", "<mj-text-x", ">", "/>", " />", "\n/>", "/ >",
 	"</mj-text", "</mj-text>", "</MJ-TEXT \n>", "</mj-text\n\n\t>", "</mj-text x>", "</mj-tex", "<br/>", "<br />", "<BR\n/>", "<br   />", "<br\n  \n/>", "<linK/>", "<ſource src=\"a\"/>", "<tracK\n/>",
 	"<img a='>'/>", "<img src=\"i.png\"\n alt=\"a\"/>", "<hr", "<wbr\t/>", "<col>", "<colx y/>", "<b>", "</b>", "<input disabled/>", "<meta/><link/>", "<![CDATA[", "]]>", " <![CDATA[x]]>", "\n", "\r\n", " ", "\t", "\"", "'", "a", "text",
-	"&amp;", "&nbsp;", "&", "/", "<", "\xff", "\xe2\x84", "<!-- c -->", "<mj-raw><br/></mj-raw>", "<mj-button href=\"u\">go</mj-button\n>"}
+	"&amp;", "&nbsp;", "&", "/", "<", "\xff", "\xe2\x84", "<!-- c -->", "<!--", "-->", "<!-- 5\" & -->", "<![CDATA[ \"a & b\" &copy; ]]>", "&copy;", "&#160;", " a=\"x&y\"", " b='&copy;&z;'", "<mj-raw><br/></mj-raw>", "<mj-button href=\"u\">go</mj-button\n>"}
 
 func wrapTexts(seed int64, n int) []string {
 	var out []string
